@@ -94,7 +94,7 @@ WithRules(c, e) ==
                                        !.uniq = <<[label |-> "ur1", attrs |-> <<"a1">>]>>,
                                        !.where = <<[label |-> "wr1", expr |-> "a1 > 0"]>>]
   ELSE e
-Valid(c) ==
+Valid0(c) ==
   [name |-> "m",
    types |-> Types(c) \o ExtraTypes(c.ts),
    ents |-> [i \in 1..Len(Names(c)) |->
@@ -111,6 +111,33 @@ Valid(c) ==
    aux |-> c.aux]
 TypeShapes(deep) == {[k |-> "aggs"]} \cup {[k |-> "chain", of |-> o, names |-> p] : o \in {"simple", "enum", "select"},
                                                    p \in (IF deep THEN Perm3 ELSE {<<"m1", "m2", "m3">>, <<"m3", "m1", "m2">>, <<"m2", "m3", "m1">>})}
+(* identifiers that are keywords or well-known names of the target languages (C++, Python) or of Part 21 but     *)
+(* ordinary identifiers of EXPRESS (choice field nm; applied to a schema without expression texts)                *)
+NameMap(nm, x) ==
+  IF nm = "cxx" THEN
+    CASE x = "e1" -> "class" [] x = "e2" -> "template" [] x = "e3" -> "namespace" [] x = "a1" -> "int" [] x = "a2" -> "delete"
+      [] x = "a3" -> "operator" [] x = "a4" -> "this" [] x = "b1" -> "new" [] x = "b2" -> "virtual" [] x = "c1" -> "friend"
+      [] x = "lab" -> "char" [] x = "cnt" -> "long" [] x = "colour" -> "enum" [] x = "pick" -> "union" [] x = "ilist" -> "struct"
+      [] x = "red" -> "public" [] x = "green" -> "private" [] x = "blue" -> "protected" [] OTHER -> x
+  ELSE IF nm = "py" THEN
+    CASE x = "e1" -> "def" [] x = "e2" -> "lambda" [] x = "e3" -> "object" [] x = "a1" -> "class" [] x = "a2" -> "import"
+      [] x = "a3" -> "pass" [] x = "a4" -> "global" [] x = "b1" -> "None" [] x = "b2" -> "print" [] x = "c1" -> "yield"
+      [] x = "lab" -> "str" [] x = "cnt" -> "int" [] x = "colour" -> "del" [] x = "pick" -> "dict" [] x = "ilist" -> "len"
+      [] x = "red" -> "raise" [] x = "green" -> "assert" [] x = "blue" -> "except" [] OTHER -> x
+  ELSE IF nm = "p21" THEN
+    CASE x = "e1" -> "data" [] x = "e2" -> "endsec" [] x = "e3" -> "header" [] x = "a1" -> "iso" [] x = "lab" -> "file_name"
+      [] x = "red" -> "t" [] x = "green" -> "f" [] x = "blue" -> "u" [] OTHER -> x
+  ELSE x
+RECURSIVE RenTree(_, _)
+RenTree(nm, t) == IF t.k = "none" THEN t ELSE IF t.k = "leaf" THEN Leaf(NameMap(nm, t.e)) ELSE Op(t.k, [i \in 1..Len(t.kids) |-> RenTree(nm, t.kids[i])])
+RenRef(nm, t) == IF "inner" \in DOMAIN t THEN [t EXCEPT !.inner = [@ EXCEPT !.base = NameMap(nm, @)]] ELSE [t EXCEPT !.base = NameMap(nm, @)]
+Rename(nm, s) ==
+  [s EXCEPT !.types = [i \in 1..Len(@) |-> [@[i] EXCEPT !.name = NameMap(nm, @), !.items = [j \in 1..Len(@) |-> NameMap(nm, @[j])],
+                                                      !.members = [j \in 1..Len(@) |-> NameMap(nm, @[j])], !.base = RenRef(nm, @)]],
+            !.ents = [i \in 1..Len(@) |-> [@[i] EXCEPT !.name = NameMap(nm, @), !.supers = [j \in 1..Len(@) |-> NameMap(nm, @[j])],
+                                                     !.sexpr = RenTree(nm, @),
+                                                     !.attrs = [j \in 1..Len(@) |-> [@[j] EXCEPT !.name = NameMap(nm, @), !.ty = RenRef(nm, @)]]]]]
+Valid(c) == IF "nm" \in DOMAIN c THEN Rename(c.nm, Valid0(c)) ELSE Valid0(c)
 Choices(deep) ==
   {[inh |-> i, sx |-> s, abs |-> a, ak |-> k, rules |-> r, aux |-> x, ts |-> [k |-> "base"]] :
      i \in (IF deep THEN {"none", "chain", "multi", "fan", "tworoots"} ELSE {"chain", "multi", "tworoots"}),
@@ -118,6 +145,8 @@ Choices(deep) ==
      a \in (IF deep THEN BOOLEAN ELSE {FALSE}), k \in (IF deep THEN 1..3 ELSE {2, 3}), r \in BOOLEAN,
      x \in BOOLEAN}
   \cup {[inh |-> "chain", sx |-> "none", abs |-> FALSE, ak |-> 2, rules |-> FALSE, aux |-> FALSE, ts |-> t] : t \in TypeShapes(deep)}
+  \cup {[inh |-> i, sx |-> "oneof", abs |-> FALSE, ak |-> 2, rules |-> FALSE, aux |-> FALSE, ts |-> [k |-> "base"], nm |-> n] :
+          i \in {"chain", "fan"}, n \in {"cxx", "py", "p21"}}
 
 (* ------------------------------------------------------------------ single-fault mutants (C04, C20) *)
 (* [class, at: index of the entity/type concerned, lexeme: the offending name a diagnostic should quote ("" = none), *)
@@ -193,10 +222,17 @@ AttrOrder(s, n) == Dedup(RawOrder(s, n))
 (* ------------------------------------------------------------------ the Python module (C18) *)
 (* one class per entity: bases = supertypes in declaration order, constructor parameters = AttrOrder; one *)
 (* definition per defined type                                                                            *)
+(* a name that is a reserved word of Python cannot be used as it stands: the generator appends an underscore      *)
+PyKeywords == {"False", "None", "True", "and", "as", "assert", "async", "await", "break", "class", "continue", "def", "del", "elif",
+               "else", "except", "finally", "for", "from", "global", "if", "import", "in", "is", "lambda", "nonlocal", "not", "or",
+               "pass", "raise", "return", "try", "while", "with", "yield", "property"}
+PyName(n) == IF n \in PyKeywords THEN n \o "_" ELSE n
 PyModule(s) == [classes |-> [i \in 1..Len(s.ents) |->
-                               [name |-> s.ents[i].name, bases |-> s.ents[i].supers,
-                                params |-> [j \in 1..Len(AttrOrder(s, s.ents[i].name)) |-> AttrOrder(s, s.ents[i].name)[j].name]]],
-                types |-> s.types]
+                               [name |-> PyName(s.ents[i].name), bases |-> [j \in 1..Len(s.ents[i].supers) |-> PyName(s.ents[i].supers[j])],
+                                params |-> [j \in 1..Len(AttrOrder(s, s.ents[i].name)) |-> PyName(AttrOrder(s, s.ents[i].name)[j].name)]]],
+                types |-> [i \in 1..Len(s.types) |-> [s.types[i] EXCEPT !.name = PyName(@), !.items = [j \in 1..Len(@) |-> PyName(@[j])],
+                                                                       !.members = [j \in 1..Len(@) |-> PyName(@[j])],
+                                                                       !.base = [@ EXCEPT !.base = PyName(@)]]]]
 (* Dev_PyCtorRepeatsSharedAncestor: the constructor lists the inherited attributes once per supertype path, so an *)
 (* entity with two supertypes that share an ancestor (a diamond) names the ancestor's attributes twice            *)
 RECURSIVE Ancestors(_, _)
